@@ -4,7 +4,7 @@ Decided statically (DESIGN.md §5 C03): every body in the synthesis closure K is
 other than allocation and stderr diagnostics, reads nothing but its arguments and constants, and
 no type reachable from &Engine admits mutation.
 """
-from ..expr import ExprBuilder, walk, show
+from ..expr import ExprBuilder, walk, show, success_value
 from ..mir import callee_name
 from ..model import classify
 from . import common as cm
@@ -181,7 +181,9 @@ def setter_rule(ctx, p, bodies, tag, rule="C03-R7"):
                     chain.append(f[2])
                 f = f[1]
             fields.add(chain[-1] if chain else "?")
-            for x in walk(val):
+            # a local validating helper `fn h(&self, v) -> Result<T, E>` contributes its Ok payload only:
+            # whether it *accepts* may depend on self (a guard), the value it yields must not
+            for x in walk(success_value(p, val)):
                 if x[0] == "arg" and x[1] == 1:
                     problems.append(("reads-self", "stored value depends on the previous state of self: "
                                      + show(val), st))
